@@ -181,6 +181,39 @@ impl Report {
         }
     }
 
+    /// Like [`Report::viol`] for callers that aggregate locally (per zone):
+    /// records `n` violations of signature `sig` of which `case` is the
+    /// minimal one the caller saw. (Additive helper; `viol` is unchanged.)
+    pub fn viol_n(&self, section: &str, sig: &str, case: impl Into<String>, detail: impl Into<String>, n: u64) {
+        if n == 0 {
+            return;
+        }
+        let case = case.into();
+        if let Some(c) = &self.only_case {
+            if *c != case {
+                return;
+            }
+        }
+        let detail = detail.into();
+        if std::env::var_os("VF_DUMP").is_some() {
+            eprintln!("VIOL\t{}\t{}\t{}\t{}\t(x{})", section, sig, case, detail, n);
+        }
+        let mut v = self.viols.lock().unwrap();
+        match v.get_mut(sig) {
+            None => {
+                v.insert(sig.to_string(), Viol { count: n, section: section.to_string(), case, detail });
+            }
+            Some(e) => {
+                e.count += n;
+                if (case.len(), &case) < (e.case.len(), &e.case) {
+                    e.case = case;
+                    e.detail = detail;
+                    e.section = section.to_string();
+                }
+            }
+        }
+    }
+
     pub fn n_viol_sigs(&self) -> usize {
         self.viols.lock().unwrap().len()
     }
